@@ -2,6 +2,9 @@ import Propka.Model.Hybrid36
 import Propka.Model.Rotation
 import Propka.Model.BondsDriver
 import Propka.Model.ParamsDriver
+import Propka.Model.PdbDriver
+import Propka.Model.GroupsDriver
+import Propka.Model.HiddenDriver
 /-! Line-protocol driver: one request per line `<module> <args…>`, one response line each. -/
 open Propka
 
@@ -11,6 +14,9 @@ def dispatch (ws : List String) : String :=
   | "rot" :: r => Rot.handle r
   | "bonds" :: r => Bonds.handle r
   | "params" :: r => Params.handle r
+  | "pdb" :: r => Pdb.handle r
+  | "groups" :: r => Groups.handle r
+  | "hidden" :: r => Hidden.handle r
   | ["ping"] => "pong"
   | _ => "bad-op"
 
